@@ -5,14 +5,24 @@ from supybot.commands import wrap
 def _cfg():
     return sys.modules.get('vt_c20')
 
+# the "version on disk" of this plugin: the harness changes it between a load and a reload, as if the
+# module file had been rewritten (this file is re-executed by every load / reload): odd versions have
+# one more command (alt3), and every instance answers with its own serial number
+_VERSION = getattr(_cfg(), 'version', {}).get('VtOrd3', 0) if _cfg() is not None else 0
+
 class VtOrd3(callbacks.Plugin):
     """C20 ordering probe VtOrd3."""
+    vt_version = _VERSION
+
     def __init__(self, irc):
         c = _cfg()
+        self.vt_serial = 0
         if c is not None:
             c.log.append(('init', 'VtOrd3'))
             if 'VtOrd3' in c.init_raises:
                 raise RuntimeError('vt_c20: constructor of VtOrd3 made to raise')
+            c.serial += 1
+            self.vt_serial = c.serial
         super().__init__(irc)
 
     @property
@@ -42,8 +52,16 @@ class VtOrd3(callbacks.Plugin):
     def ord3(self, irc, msg, args):
         """takes no arguments
 
-        Answers with the name of this plugin."""
-        irc.reply('VtOrd3 here')
+        Answers with the name of this plugin and the serial number of this instance."""
+        irc.reply('VtOrd3 here g%d' % self.vt_serial)
     ord3 = wrap(ord3)
+
+    if _VERSION % 2 == 1:
+        def alt3(self, irc, msg, args):
+            """takes no arguments
+
+            Exists only in odd versions of this plugin."""
+            irc.reply('VtOrd3 alt g%d' % self.vt_serial)
+        alt3 = wrap(alt3)
 
 Class = VtOrd3
